@@ -15,7 +15,7 @@ import (
 func init() {
 	register(&Prop{
 		ID:          "C07",
-		Explanation: "Decides the wiring between stripping and injecting identity headers: NewRequestHeaderInjector gives the same configured header list to the strip builder and the injector builder and composes alice.New(strip, inject) in that order, dropping the strip stage only when the builder returned nil; the strip builder collects header.Name exactly for entries without PreserveRequestValue and returns nil only for an empty collection; the strip handler calls the canonicalising http.Header.Del on the request's header for every collected name unconditionally before calling next; the upstream handler and the auth-only 202 writer are used only as the argument of p.headersChain.Then (whose result is what serves the request), headersChain has one writer, the constructor, fed from buildHeadersChain = alice.New(request injector, response injector); every value written by the injectors derives only from session.GetClaim(...), configured secret bytes, configured prefixes and constants, never from a header read; GetClaim returns no values for a nil session; the inject handlers inject scope.Session into the request's (response's) own header map before next; the legacy conversion sets PreserveRequestValue = !SkipAuthStripHeaders for every element after the last append; claim injectors add a header only on paths where the claim value itself was tested non-empty; getRequestHeaders adds each legacy header group exactly on the paths whose tested flags ask for it (PassBasicAuth||PassUserHeaders -> user headers, PassAccessToken, PassAuthorization, PassBasicAuth&&password -> basic-auth header). Added during the build: a claim source injects only non-empty claim values and the legacy flags map to the documented header groups (R6). GetClaim answers each claim name from the session field of that name only (R7); with request signing configured the upstream proxy overwrites GAP-Auth from its own response header before every hand-off (R8). Round 4: the session the injectors read is this request's own — bearer claims decoded into a per-invocation object, and a request that waited for the refresh lock continues with the reloaded session (R9, shared with C04.R8 and C12.R2). Round 5: the operator's injected-header configuration is read-only between option loading and the injector builders (R10). Round 6: the option loader's viper switches are a reviewed closed list with their constant arguments (R11).",
+		Explanation: "Decides the wiring between stripping and injecting identity headers: NewRequestHeaderInjector gives the same configured header list to the strip builder and the injector builder and composes alice.New(strip, inject) in that order, dropping the strip stage only when the builder returned nil; the strip builder collects header.Name exactly for entries without PreserveRequestValue and returns nil only for an empty collection; the strip handler calls the canonicalising http.Header.Del on the request's header for every collected name unconditionally before calling next; the upstream handler and the auth-only 202 writer are used only as the argument of p.headersChain.Then (whose result is what serves the request), headersChain has one writer, the constructor, fed from buildHeadersChain = alice.New(request injector, response injector); every value written by the injectors derives only from session.GetClaim(...), configured secret bytes, configured prefixes and constants, never from a header read; GetClaim returns no values for a nil session; the inject handlers inject scope.Session into the request's (response's) own header map before next; the legacy conversion sets PreserveRequestValue = !SkipAuthStripHeaders for every element after the last append; claim injectors add a header only on paths where the claim value itself was tested non-empty; getRequestHeaders adds each legacy header group exactly on the paths whose tested flags ask for it (PassBasicAuth||PassUserHeaders -> user headers, PassAccessToken, PassAuthorization, PassBasicAuth&&password -> basic-auth header). Added during the build: a claim source injects only non-empty claim values and the legacy flags map to the documented header groups (R6). GetClaim answers each claim name from the session field of that name only (R7); with request signing configured the upstream proxy overwrites GAP-Auth from its own response header before every hand-off (R8). Round 4: the session the injectors read is this request's own — bearer claims decoded into a per-invocation object, and a request that waited for the refresh lock continues with the reloaded session (R9, shared with C04.R8 and C12.R2). Round 5: the operator's injected-header configuration is read-only between option loading and the injector builders (R10). Round 6: the option loader's viper switches are a reviewed closed list with their constant arguments (R11). Round 7: request handling keeps no state of its own between requests — no store, map update, in-place builtin, atomic/sync.Map write or pointer-receiver library call (singleflight, caches) reached from ServeHTTP targets a package-level variable, an object built at start-up, or a constructor variable captured by the handler it returned, declared in the packages implementing this property (RS; a class-wide who-may-write rule with zero instances today: a correct memoisation would be reported until reviewed). No reader of the session's group list filters, sorts or overwrites it in place (R12).",
 		NotDecided:  "per-option value tables of the legacy flags (which claims each flag maps to); header-name normalisation by upstream servers (underscore/dash); values produced by GetClaim for each claim name.",
 		Run:         runC07,
 	})
@@ -33,6 +33,8 @@ func runC07(c *Ctx) {
 	r.Rule("R7-claim-field-table", "GetClaim answers each claim name from the session field of that name only; nothing for unknown claims or a nil session", 9)
 	r.Rule("R8-gap-auth-replaced", "with signing configured, GAP-Auth is overwritten from the proxy's own response header before every hand-off to an upstream handler", 2)
 	r.Rule("R9-session-belongs-to-request", "the session the injectors read is this request's own: bearer claims are decoded into a per-invocation object (shared with C04.R8) and a request that waited for the refresh lock continues with the reloaded session (shared with C12.R2)", 4)
+	r.Rule("R12-session-groups-never-edited-in-place", "no code that reads the session's group list (Authorize, constraints, providers, injectors) filters, sorts or overwrites it in place; the injected group headers are the session's (round 7)", 1)
+	runC07R12(c, "R12-session-groups-never-edited-in-place")
 	r.Rule("R10-header-config-verbatim", "the operator's injected-header configuration (headers and their value lists) is never written between option loading and the injector builders", 3)
 	runC07R10(c, "R10-header-config-verbatim")
 	r.Rule("R11-loader-switches", "the switches that decide how flags, environment and config file combine into option values (skip-auth-strip-headers among them) are a reviewed closed list (shared with C15.R9)", 1)
@@ -1114,5 +1116,39 @@ func runC07R10(c *Ctx, rule string) {
 		case !bad:
 			c.R.OK(rule, "read-only|"+f.Name(), "-", sprintf("%d use(s) of %s outside option loading, all read-only", n, f.Name()))
 		}
+	}
+}
+
+// runC07R12 (round 7): the group list of a session is shared by everything that handles the request after the session
+// was loaded — Authorize, the auth-only constraints, the header injectors, the store that re-saves it. None of them
+// edits it in place: a helper that filters "the allowed ones" into groups[:0], sorts or de-duplicates the slice it was
+// handed overwrites the elements the injectors read next (X-Forwarded-Groups then carries a list the session never
+// had). Providers REPLACE the field (s.Groups = …); that is a store to the field, not an edit of the shared array.
+func runC07R12(c *Ctx, rule string) {
+	f := c.Field(rule, "pkg/apis/sessions.SessionState.Groups")
+	if f == nil {
+		return
+	}
+	n, bad := 0, false
+	for _, fn := range c.P.ModFns {
+		for _, b := range fn.Blocks {
+			for _, in := range b.Instrs {
+				ld, ok := in.(*ssa.UnOp)
+				if !ok || !walk.IsFieldLoad(ld, f) {
+					continue
+				}
+				n++
+				if why := mutatesSlice(c, ld, 0); why != "" {
+					bad = true
+					c.bad(rule, "groups-edited-in-place|"+fnKey(fn), in, "the session's group list is "+why+": the array is the one the header injectors and the store read afterwards, so upstream and auth-only response headers carry groups that are not the authenticated session's", nil, 0)
+				}
+			}
+		}
+	}
+	switch {
+	case n == 0:
+		c.R.Unknown(rule, "groups-edited-in-place|none", "-", "no reader of SessionState.Groups found")
+	case !bad:
+		c.R.OK(rule, "groups-edited-in-place|none", "-", sprintf("%d load(s) of SessionState.Groups, none edits the list in place", n))
 	}
 }
